@@ -75,8 +75,9 @@ class ADX(Indicator):
         adx_negative = None
 
         if self.reading("high"):
-            up = self.reading("high") - self.reading("high", index - 1)
-            down = self.reading("low", index - 1) - self.reading("low")
+            prev_index = max(index - 1, 0)
+            up = self.reading("high") - self.reading("high", prev_index)
+            down = self.reading("low", prev_index) - self.reading("low")
 
             positive = up if up > down and up > 0 else 0
             negative = down if down > up and down > 0 else 0
